@@ -128,7 +128,14 @@ impl Expression for Op {
         use ast::Opcode::{Add, And, Div, Eq, Err, Ge, Gt, Le, Lt, Merge, Mul, Ne, Or, Sub};
 
         match self.opcode {
-            Err => return self.lhs.resolve(ctx).or_else(|_| self.rhs.resolve(ctx)),
+            Err => {
+                return self.lhs.resolve(ctx).or_else(|err| match err {
+                    // `return` and `abort` are control flow, not errors to recover from
+                    expression::ExpressionError::Return { .. }
+                    | expression::ExpressionError::Abort { .. } => Resolved::Err(err),
+                    _ => self.rhs.resolve(ctx),
+                });
+            }
             Or => {
                 return self
                     .lhs
